@@ -37,7 +37,8 @@ Correspondence (real code vs compiled model driver, every observable the propert
             edited between clips, clip edited; catchment exported, export edited by the caller, re-delineated, exported again;
   catchment Catchment.to_dict / from_dict (directly and through json) after a real delineation, with and without inlets:
             random flow direction grids, and routed ones (spanning tree to the outlet around interior closed depressions)
-            whose area encloses one or several holes, with inlets next to the holes: outlet, inlets, area and filled area
+            whose area encloses one or several holes, with inlets next to the holes; the falsy values are generated
+            regularly (outlet = cell 0, inlets containing cell 0, empty inlets list vs None, no-data 0 / 0.0, name ""): outlet, inlets, area and filled area
             as sets of cells, answers of isin(filled=False/True).
 Oracle (real objects only, independent of the model): bitwise equality of cell values after setter, save/load
 (little-endian as saved, big-endian as synthesised), clone; equality of shape, corner, cell size (bits), dtype and
@@ -549,6 +550,10 @@ def body(ctx):
     def ilist(x):
         return "-" if x is None else C.ilist(x)
 
+    def snap_outlet(c):
+        o = getattr(c, "_idxcell_outlet", None)
+        return None if o is None else int(o)
+
     def judge_catch(ca, cb, case, via, nr, nc):
         """the property on the rebuilt catchment: same outlet, inlets, area and filled area (as sets of cells, and as the
         answers of isin), same flow direction grid metadata"""
@@ -557,8 +562,20 @@ def body(ctx):
         filled0 = sorted(int(v) for v in ca.idxcells_area_filled)
         hole = len(set(filled0) - set(area0))
         want_in = None if ca.idxinlets is None else [int(v) for v in ca.idxinlets]
-        if int(cb.idxcell_outlet) != int(ca.idxcell_outlet):
-            ctx.finding("catchment/outlet", "outlet changed in the dictionary round trip", c2)
+        want_out = int(ca.idxcell_outlet)
+        try:
+            got_out = int(cb.idxcell_outlet)        # the public accessor: a rebuilt catchment that cannot tell its outlet lost it
+        except Exception as e:  # noqa
+            got_out = None
+            ctx.finding("catchment/outlet_lost", "the rebuilt catchment has no outlet (the accessor raises)",
+                        {**c2, "want": want_out, "error": f"{exc_class(e)}: {e}"[:200], "outlet_is_cell_0": want_out == 0})
+        if got_out is not None and got_out != want_out:
+            ctx.finding("catchment/outlet", "outlet changed in the dictionary round trip", {**c2, "want": want_out, "got": got_out})
+        try:
+            cb.idxcells_area, cb.idxcells_area_filled
+        except Exception as e:  # noqa
+            ctx.finding("catchment/area_lost", "the rebuilt catchment has no area (the accessor raises)", {**c2, "error": f"{exc_class(e)}: {e}"[:200]})
+            return None, [], []
         got_in = None if cb.idxinlets is None else [int(v) for v in cb.idxinlets]
         if got_in != want_in:
             ctx.finding("catchment/inlets_lost" if got_in is None else "catchment/inlets", "inlets changed in the dictionary round trip",
@@ -617,7 +634,8 @@ def body(ctx):
             ctx.finding("catchment/dict_raises", "Catchment dictionary round trip raises", {**case, "error": f"{exc_class(e)}: {e}"[:200]})
             return True
         got_in, a1, f1 = judge(cb, "dict")
-        impl = (cb.name, int(cb._idxcell_outlet), got_in, a1, f1)
+        oc = getattr(cb, "_idxcell_outlet", None)
+        impl = (cb.name, None if oc is None else int(oc), got_in, a1, f1)
         ask(" ".join(["catch", enc(ca.name), str(int(ca._idxcell_outlet)), ilist(want_in), ilist(ca._idxcells_area), ilist(ca._idxcells_area_filled),
                       grid_toks(ca.flowdir)]), "catch", (impl, obs_real(cb.flowdir)), case)
         # the dictionary is meant for json: same judgement after dumps / loads
@@ -627,7 +645,9 @@ def body(ctx):
         except Exception as e:  # noqa
             ctx.finding("catchment/json_raises", "Catchment dictionary round trip through json raises", {**case, "error": f"{exc_class(e)}: {e}"[:200]})
         ctx.count(("catch", nr, nc, outlet, tuple(inlets or ()), tuple(fd.data.ravel())), True,
-                  "catchment/" + ("inlets" if want_in else "no_inlets") + ("/hole" if hole else ""), sample=case if idx < 3 else None)
+                  "catchment/" + ("inlets" if want_in else ("empty_inlets" if want_in == [] else "no_inlets")) + ("/hole" if hole else "")
+                  + ("/outlet0" if int(ca.idxcell_outlet) == 0 else "") + ("/cell0_in_inlets" if want_in and 0 in want_in else ""),
+                  sample=case if idx < 3 else None)
         return True
 
     # corpus: minimised past failures first (the four defects repaired by the fix: commits)
@@ -1215,7 +1235,8 @@ def body(ctx):
                 if 0 < r2 < nr - 1 and 0 < c2 < nc - 1:
                     pits.add((r2, c2))
         free = [(r, c) for r in range(nr) for c in range(nc) if (r, c) not in pits]
-        orc = rng.choice(free)
+        # cell 0 (top-left corner) is the falsy cell number: outlet there in a fifth of the cases
+        orc = (0, 0) if rng.random() < 0.2 else rng.choice(free)
         fd = np.zeros((nr, nc), dtype=np.int64)
         seen = {orc}
         frontier = [orc]
@@ -1246,8 +1267,12 @@ def body(ctx):
         try:
             fddata, outlet, ring = routed_catchment()
             k = rng.random()
-            if k < 0.4:
+            if k < 0.3:
                 inlets = None
+            elif k < 0.4:
+                inlets = []                                                             # empty list, not None
+            elif k < 0.5 and outlet != 0:
+                inlets = [0] + ([rng.choice(ring)] if ring and rng.random() < 0.5 else [])    # inlets containing cell 0
             elif k < 0.7 and ring:
                 inlets = rng.sample(ring, min(len(ring), rng.randint(1, 2)))          # inlets touching a hole
             else:
@@ -1264,7 +1289,7 @@ def body(ctx):
                 break
             nr, nc = rng.randint(1, 6), rng.randint(1, 6)
             fddata = np.array([[rng.choice(codes + [0]) for _ in range(nc)] for _ in range(nr)], dtype=np.int64)
-            outlet = rng.randrange(nr * nc)
+            outlet = 0 if rng.random() < 0.15 else rng.randrange(nr * nc)
             inlets = None
             if rng.random() < 0.6:
                 # inlets: cells of the inlet-free area (so that they cut something off), sometimes an arbitrary cell
@@ -1501,7 +1526,7 @@ def body(ctx):
             prev = None
             nok = 0
             for step in range(rng.randint(2, 3)):
-                o = outlet if step == 0 else rng.randrange(nr * nc)
+                o = outlet if step == 0 else (0 if rng.random() < 0.2 else rng.randrange(nr * nc))
                 inl = None if rng.random() < 0.5 else (rng.sample(ring, min(len(ring), 2)) if ring else None)
                 try:
                     ca.delineate_area(o, inl)
@@ -1528,11 +1553,11 @@ def body(ctx):
                 judge_catch(ca, cb, case, "dict-after-history", nr, nc)
                 if prev is not None:
                     pcb, psnap = prev
-                    now = (int(pcb.idxcell_outlet), None if pcb.idxinlets is None else [int(v) for v in pcb.idxinlets],
+                    now = (snap_outlet(pcb), None if pcb.idxinlets is None else [int(v) for v in pcb.idxinlets],
                            [int(v) for v in pcb.idxcells_area], [int(v) for v in pcb.idxcells_area_filled])
                     if now != psnap:
                         ctx.finding("history/catchment_rebuilt_aliases", "re-delineating a catchment changed a catchment rebuilt from its earlier dictionary", case)
-                prev = (cb, (int(cb.idxcell_outlet), None if cb.idxinlets is None else [int(v) for v in cb.idxinlets],
+                prev = (cb, (snap_outlet(cb), None if cb.idxinlets is None else [int(v) for v in cb.idxinlets],
                              [int(v) for v in cb.idxcells_area], [int(v) for v in cb.idxcells_area_filled]))
             ctx.count(("history/catch", rep, tuple(fddata.ravel())), nok > 1, "history/catchment")
         except Exception as e:  # noqa
